@@ -28,15 +28,6 @@ import tpmstream  # noqa: E402
 assert os.path.realpath(tpmstream.__file__).startswith(os.path.realpath(REPO)), tpmstream.__file__
 
 
-def _type_table():
-    """same keys as the translator: NAME, NAME__2 for a second class of the same name"""
-    sys.path.insert(0, os.path.dirname(os.path.dirname(os.path.abspath(__file__))))
-    import translate  # noqa
-    # rebuild the key assignment exactly as translate.extract does
-    tab = {}
-    return tab
-
-
 class CountingIter:
     def __init__(self, data):
         self.it = iter(data)
@@ -124,23 +115,25 @@ def cc_str(cc):
 TYPES = None
 
 
-def resolve_type(name):
+def type_table():
+    """definition key -> class, with exactly the keys the translator assigns (NAME, NAME__2, …)"""
     global TYPES
+    if TYPES is None:
+        sys.path.insert(0, os.path.dirname(os.path.dirname(os.path.abspath(__file__))))
+        import translate
+        translate.extract()
+        TYPES = {k: c for c, k in translate.LAST_CLS_KEY.items()}
+    return TYPES
+
+
+def resolve_type(name):
     if name == "Command":
         return Command
     if name == "Response":
         return Response
     if name == "Stream":
         return CommandResponseStream
-    if TYPES is None:
-        TYPES = {}
-        for t in all_types:
-            TYPES.setdefault(t.__name__, t)
-        TYPES["TPM2B_ENCRYPTED_PARAM"] = TPM2B_ENCRYPTED_PARAM
-        from tpmstream.spec.commands import command_response_types
-        for t in command_response_types:
-            TYPES.setdefault(t.__name__, t)
-    return TYPES[name]
+    return type_table()[name]
 
 
 def impl_dec(mode, tname, cc, enc, data, source="counting"):
